@@ -273,3 +273,299 @@ Proof.
   change (g_ya_enable en0) with true.
   rewrite (g_ya_painted_fmt_eq _ _ _ _ _ Hb Hw). reflexivity.
 Qed.
+
+(* ======================================================================== *)
+(* 3. the terminal reads the rendering back as the meaning of the value       *)
+
+Definition ya_colour_meaning (c : ya_color) : option colour :=
+  match c with
+  | YaPrimary => None
+  | YaFixed n => Some (CIdx n)
+  | YaRgb r g b => Some (CRgb r g b)
+  | YaBlack => Some (CAnsi 0) | YaRed => Some (CAnsi 1) | YaGreen => Some (CAnsi 2) | YaYellow => Some (CAnsi 3)
+  | YaBlue => Some (CAnsi 4) | YaMagenta => Some (CAnsi 5) | YaCyan => Some (CAnsi 6) | YaWhite => Some (CAnsi 7)
+  | YaBrightBlack => Some (CAnsi 8) | YaBrightRed => Some (CAnsi 9) | YaBrightGreen => Some (CAnsi 10)
+  | YaBrightYellow => Some (CAnsi 11) | YaBrightBlue => Some (CAnsi 12) | YaBrightMagenta => Some (CAnsi 13)
+  | YaBrightCyan => Some (CAnsi 14) | YaBrightWhite => Some (CAnsi 15)
+  end.
+Definition ya_slot_meaning (c : option ya_color) : option colour :=
+  match c with Some c => ya_colour_meaning c | None => None end.
+(* the effect (Spec/Sgr numbering) an attribute switches on *)
+Definition ya_attr_effect (a : ya_attr) : N :=
+  match a with
+  | YaBold => BOLD | YaDim => DIMMED | YaItalic => ITALIC | YaUnderline => UNDERLINE | YaBlink => BLINK
+  | YaRapidBlink => BLINK | YaInvert => INVERT | YaConceal => HIDDEN | YaStrike => STRIKETHROUGH
+  end.
+Definition ya_effects (bits : N) : N :=
+  fold_right (fun a acc => if N.testbit bits (ya_attr_disc a) then N.lor (bit (ya_attr_effect a)) acc else acc) 0 ya_all_attrs.
+Definition ya_meaning (st : ya_style) : sstyle :=
+  mkStyle (ya_slot_meaning (ya_fg st)) (ya_slot_meaning (ya_bg st)) None (ya_effects (ya_attrs st)).
+
+(* a style without quirks and without a condition of its own (what every builder chain that does not
+   call a quirk / `whenever` method yields; the adapter's image lies inside) *)
+Definition ya_plain (st : ya_style) : Prop := ya_quirks st = 0 /\ ya_cond st = None.
+
+Definition ya_codes (st : ya_style) : list N := concat (ya_items st).
+
+(* ---- bytes: the spliced items are one printed parameter list ------------------ *)
+
+Lemma rn_join_app sep (a b : list (list N)) :
+  rn_join sep (a ++ b) = rn_join sep a ++ (if ya_nonempty a && ya_nonempty b then [sep] else []) ++ rn_join sep b.
+Proof.
+  induction a as [|x t IH]; cbn [app ya_nonempty andb]; [reflexivity|].
+  destruct t as [|y t'].
+  - destruct b as [|z b']; cbn [app rn_join ya_nonempty]; [now rewrite app_nil_r|reflexivity].
+  - change ((x :: y :: t') ++ b) with (x :: (y :: t') ++ b). cbn [app] in *.
+    rewrite !rn_join_cons2. rewrite IH. cbn [ya_nonempty andb]. now rewrite <- !app_assoc.
+Qed.
+
+Lemma ya_spliced_join items : forall fl, Forall (fun it => ya_nonempty it = true) items ->
+  ya_spliced fl items = (if fl && ya_nonempty items then [59] else []) ++ rn_join 59 (map ya_dec (concat items)).
+Proof.
+  induction items as [|it rest IH]; intros fl H; cbn [ya_spliced concat ya_nonempty].
+  - now rewrite andb_false_r.
+  - inversion H as [|? ? Hit Hrest]; subst. rewrite (IH true Hrest). rewrite andb_true_r. cbn [andb].
+    rewrite map_app, rn_join_app. unfold ya_item_bytes.
+    assert (E1 : ya_nonempty (map ya_dec it) = true) by (destruct it; [discriminate|reflexivity]).
+    assert (E2 : ya_nonempty (map ya_dec (concat rest)) = ya_nonempty rest).
+    { destruct rest as [|r0 rr]; [reflexivity|]. inversion Hrest; subst. destruct r0; [discriminate|reflexivity]. }
+    rewrite E1, E2. cbn [andb]. rewrite <- ?app_assoc. reflexivity.
+Qed.
+
+Lemma ya_items_nonempty st : Forall (fun it => ya_nonempty it = true) (ya_items st).
+Proof.
+  unfold ya_items. rewrite !Forall_app. repeat split.
+  - apply Forall_forall. intros x Hx. apply in_map_iff in Hx. destruct Hx as (a & <- & _). reflexivity.
+  - destruct (ya_brighten _ _) as [c|]; [|constructor]. constructor; [|constructor]. destruct c; reflexivity.
+  - destruct (ya_brighten _ _) as [c|]; [|constructor]. constructor; [|constructor]. destruct c; reflexivity.
+Qed.
+
+(* the decimal printer on a byte *)
+Definition ya_u8s : list N := map N.of_nat (seq 0 256).
+Lemma ya_u8s_in n : n < 256 -> In n ya_u8s.
+Proof. intros H. apply in_map_iff. exists (N.to_nat n). split; [lia|]. apply in_seq. lia. Qed.
+
+Lemma ya_dec_all : forallb (fun n => rn_digits_ok (ya_dec n) && (rn_dec_value (ya_dec n) =? n)) ya_u8s = true.
+Proof. vm_compute. reflexivity. Qed.
+
+Lemma ya_dec_ok n : n < 256 -> rn_digits_ok (ya_dec n) = true /\ rn_dec_value (ya_dec n) = n.
+Proof.
+  intros H. pose proof ya_dec_all as A. rewrite forallb_forall in A. specialize (A n (ya_u8s_in n H)).
+  apply andb_true_iff in A. destruct A as [A B]. apply N.eqb_eq in B. auto.
+Qed.
+
+(* every parameter yansi prints is a byte *)
+Lemma ya_color_codes_u8 v c : ya_color_ok (Some c) -> Forall (fun x => x < 256) (ya_color_codes v c).
+Proof.
+  intros H. pose proof (ya_base_bound c).
+  destruct c, v; cbn [ya_color_codes ya_vbase ya_color_ok] in *; repeat constructor; try lia; cbn; lia.
+Qed.
+
+Lemma ya_attr_list_length bits : (length (ya_attr_list bits) <= 9)%nat.
+Proof.
+  unfold ya_attr_list.
+  assert (G : forall (f : ya_attr -> bool) l, (length (filter f l) <= length l)%nat).
+  { intros f l. induction l as [|x t IH]; cbn [filter length]; [lia|]. destruct (f x); cbn [length]; lia. }
+  apply (G _ ya_all_attrs).
+Qed.
+
+Lemma ya_color_codes_length v c : (length (ya_color_codes v c) <= 5)%nat.
+Proof. destruct c; cbn; lia. Qed.
+
+Lemma ya_brighten_ok c b : ya_color_ok c -> ya_color_ok (ya_brighten c b).
+Proof. destruct c as [c|], b; cbn [ya_brighten]; auto. destruct c; cbn; auto. Qed.
+
+Lemma ya_codes_ok st : ya_style_ok st ->
+  Forall (fun x => x < 256) (ya_codes st) /\ (length (ya_codes st) <= 19)%nat.
+Proof.
+  intros (Hf & Hb & _). unfold ya_codes, ya_items. rewrite !concat_app, !Forall_app, !app_length.
+  pose proof (ya_brighten_ok _ (ya_has (ya_quirks st) YaOnBright) Hb) as Hb'.
+  pose proof (ya_brighten_ok _ (ya_has (ya_quirks st) YaBright) Hf) as Hf'.
+  assert (A : forall l, concat (map (fun a => [ya_attr_code a]) l) = map ya_attr_code l).
+  { induction l as [|x t IH]; cbn; [reflexivity|now rewrite IH]. }
+  rewrite A, map_length. pose proof (ya_attr_list_length (ya_attrs st)).
+  repeat split.
+  - apply Forall_forall. intros x Hx. apply in_map_iff in Hx. destruct Hx as (a & <- & _). destruct a; cbn; lia.
+  - destruct (ya_brighten (ya_bg st) _) as [c|]; cbn [concat]; [|constructor]. rewrite app_nil_r. now apply ya_color_codes_u8.
+  - destruct (ya_brighten (ya_fg st) _) as [c|]; cbn [concat]; [|constructor]. rewrite app_nil_r. now apply ya_color_codes_u8.
+  - assert (B : forall v o, (length (concat (match o with Some c => [ya_color_codes v c] | None => [] end)) <= 5)%nat).
+    { intros v [c|]; cbn [concat length]; [|lia]. rewrite app_nil_r. apply ya_color_codes_length. }
+    pose proof (B YaBg (ya_brighten (ya_bg st) (ya_has (ya_quirks st) YaOnBright))).
+    pose proof (B YaFg (ya_brighten (ya_fg st) (ya_has (ya_quirks st) YaBright))). lia.
+Qed.
+
+(* the prefix is ONE control sequence `ESC [ p ; p ; .. m` whose parameters are the codes *)
+Definition ya_groups (codes : list N) : list (list (list N)) := map (fun c => [ya_dec c]) codes.
+
+Lemma ya_prefix_csi st : ya_is_default st = false -> ya_prefix st = rn_csi (ya_groups (ya_codes st)) 109.
+Proof.
+  intros Hd. unfold ya_prefix, rn_csi, rn_print_params, ya_groups. rewrite Hd.
+  rewrite (ya_spliced_join _ false (ya_items_nonempty st)). cbn [andb app].
+  rewrite map_map. cbn [rn_join]. reflexivity.
+Qed.
+
+Lemma ya_groups_ok codes : codes <> [] -> Forall (fun x => x < 256) codes -> (length codes <= 32)%nat ->
+  rn_csi_ok (ya_groups codes) = true /\ rn_param_values (ya_groups codes) = map (fun c => [c]) codes.
+Proof.
+  intros Hne Hall Hlen. split.
+  - apply csi_ok_intro.
+    + destruct codes; [contradiction|reflexivity].
+    + unfold ya_groups. apply Forall_forall. intros g Hg. apply in_map_iff in Hg. destruct Hg as (c & <- & Hc).
+      split; [reflexivity|]. constructor; [|constructor]. rewrite Forall_forall in Hall. apply (ya_dec_ok c (Hall c Hc)).
+    + unfold ya_groups. assert (A : forall l : list N, concat (map (fun c => [ya_dec c]) l) = map ya_dec l).
+      { induction l as [|x t IH]; cbn [map concat app]; [reflexivity|now rewrite IH]. }
+      now rewrite A, map_length.
+  - unfold rn_param_values, ya_groups. rewrite map_map. apply map_ext_in. intros c Hc. cbn [map].
+    rewrite Forall_forall in Hall. now rewrite (proj2 (ya_dec_ok c (Hall c Hc))).
+Qed.
+
+Lemma ground_print_x s : ground_st s -> vt_step s 120 = (s, [EPrint 120]).
+Proof. intros [Hv Hu]. destruct s as [v i g c u p o un]. cbn in Hv, Hu. subst. reflexivity. Qed.
+
+(* ---- SGR: what the parameters do to the default rendition ------------------------ *)
+
+Definition ya_single (codes : list N) : list (list N) := map (fun c => [c]) codes.
+
+Lemma sgr_simple_codes codes : forall s rest, Forall (fun c => ext_target c = None) codes ->
+  sgr_groups s (ya_single codes ++ rest) = sgr_groups (fold_left sgr_code codes s) rest.
+Proof.
+  induction codes as [|c t IH]; intros s rest H; [reflexivity|].
+  inversion H as [|? ? Hc Ht]; subst. cbn [ya_single map app sgr_groups fold_left]. rewrite Hc.
+  repeat (match goal with |- (match ?p with _ => _ end) = _ => destruct p end); apply (IH _ _ Ht).
+Qed.
+
+Definition ya_set_slot (v : ya_variant) (s : sstyle) (c : option colour) : sstyle :=
+  match v with YaFg => set_fg s c | YaBg => set_bg s c end.
+
+Lemma sgr_color_codes v c s rest :
+  sgr_groups s (ya_single (ya_color_codes v c) ++ rest) = sgr_groups (ya_set_slot v s (ya_colour_meaning c)) rest.
+Proof. destruct c, v; reflexivity. Qed.
+
+Definition sstyle_dec (a b : sstyle) : {a = b} + {a <> b}.
+Proof. repeat decide equality. Defined.
+
+Definition ya_bits512 : list N := map N.of_nat (seq 0 512).
+Lemma ya_bits512_in n : n < 512 -> In n ya_bits512.
+Proof. intros H. apply in_map_iff. exists (N.to_nat n). split; [lia|]. apply in_seq. lia. Qed.
+
+Lemma ya_attr_codes_all :
+  forallb (fun bits =>
+    (if sstyle_dec (fold_left sgr_code (map ya_attr_code (ya_attr_list bits)) style_default)
+                   (mkStyle None None None (ya_effects bits)) then true else false)
+    && forallb (fun c => match ext_target c with None => true | Some _ => false end) (map ya_attr_code (ya_attr_list bits))
+    && ((bits =? 0) || ya_nonempty (ya_attr_list bits))) ya_bits512 = true.
+Proof. vm_compute. reflexivity. Qed.
+
+Lemma ya_attr_codes_eq bits : bits < 512 ->
+  fold_left sgr_code (map ya_attr_code (ya_attr_list bits)) style_default = mkStyle None None None (ya_effects bits) /\
+  Forall (fun c => ext_target c = None) (map ya_attr_code (ya_attr_list bits)) /\
+  (bits <> 0 -> ya_attr_list bits <> []).
+Proof.
+  intros H. pose proof ya_attr_codes_all as A. rewrite forallb_forall in A. specialize (A bits (ya_bits512_in bits H)).
+  apply andb_true_iff in A. destruct A as [A C]. apply andb_true_iff in A. destruct A as [A B].
+  repeat split.
+  - destruct (sstyle_dec _ _) as [E|]; [exact E|discriminate].
+  - apply Forall_forall. intros c Hc. rewrite forallb_forall in B. specialize (B c Hc). destruct (ext_target c); [discriminate|reflexivity].
+  - intros Hz. apply orb_true_iff in C. destruct C as [C|C]; [apply N.eqb_eq in C; contradiction|].
+    destruct (ya_attr_list bits); [discriminate|discriminate].
+Qed.
+
+Lemma ya_has_zero q : ya_has 0 q = false.
+Proof. destruct q; reflexivity. Qed.
+
+Lemma ya_codes_plain st : ya_quirks st = 0 ->
+  ya_codes st = map ya_attr_code (ya_attr_list (ya_attrs st))
+                ++ match ya_bg st with Some c => ya_color_codes YaBg c | None => [] end
+                ++ match ya_fg st with Some c => ya_color_codes YaFg c | None => [] end.
+Proof.
+  intros Hq. unfold ya_codes, ya_items. rewrite Hq, !ya_has_zero, !concat_app.
+  assert (A : forall l, concat (map (fun a => [ya_attr_code a]) l) = map ya_attr_code l).
+  { induction l as [|x t IH]; cbn [map concat app]; [reflexivity|now rewrite IH]. }
+  rewrite A. f_equal. f_equal.
+  - destruct (ya_bg st); cbn [ya_brighten concat]; [now rewrite app_nil_r|reflexivity].
+  - destruct (ya_fg st); cbn [ya_brighten concat]; [now rewrite app_nil_r|reflexivity].
+Qed.
+
+Lemma ya_sgr_meaning st : ya_style_ok st -> ya_quirks st = 0 ->
+  sgr_groups style_default (ya_single (ya_codes st)) = ya_meaning st.
+Proof.
+  intros (_ & _ & Hb) Hq. rewrite (ya_codes_plain _ Hq). unfold ya_single. rewrite !map_app.
+  destruct (ya_attr_codes_eq _ Hb) as (E & Hs & _).
+  change (map (fun c => [c]) (map ya_attr_code (ya_attr_list (ya_attrs st)))) with (ya_single (map ya_attr_code (ya_attr_list (ya_attrs st)))).
+  rewrite (sgr_simple_codes _ _ _ Hs), E. unfold ya_meaning.
+  destruct (ya_bg st) as [cb|], (ya_fg st) as [cf|]; cbn [ya_slot_meaning].
+  - change (map (fun c => [c]) (ya_color_codes YaBg cb)) with (ya_single (ya_color_codes YaBg cb)). rewrite sgr_color_codes.
+    rewrite <- (app_nil_r (map _ (ya_color_codes YaFg cf))).
+    change (map (fun c => [c]) (ya_color_codes YaFg cf)) with (ya_single (ya_color_codes YaFg cf)). rewrite sgr_color_codes. reflexivity.
+  - cbn [map]. rewrite app_nil_r.
+    rewrite <- (app_nil_r (map _ (ya_color_codes YaBg cb))).
+    change (map (fun c => [c]) (ya_color_codes YaBg cb)) with (ya_single (ya_color_codes YaBg cb)). rewrite sgr_color_codes. reflexivity.
+  - cbn [map app].
+    rewrite <- (app_nil_r (map _ (ya_color_codes YaFg cf))).
+    change (map (fun c => [c]) (ya_color_codes YaFg cf)) with (ya_single (ya_color_codes YaFg cf)). rewrite sgr_color_codes. reflexivity.
+  - reflexivity.
+Qed.
+
+(* ---- the events the terminal's parser reports for the rendering -------------------- *)
+
+Lemma ya_default_codes st : ya_style_ok st -> ya_quirks st = 0 -> ya_is_default st = false -> ya_codes st <> [].
+Proof.
+  intros (_ & _ & Hb) Hq Hd. rewrite (ya_codes_plain _ Hq). unfold ya_is_default in Hd.
+  destruct (ya_fg st) as [cf|].
+  { intros H. apply (f_equal (@length N)) in H. rewrite !app_length in H. destruct cf; cbn [ya_color_codes length] in H; lia. }
+  destruct (ya_bg st) as [cb|].
+  { intros H. apply (f_equal (@length N)) in H. rewrite !app_length in H. destruct cb; cbn [ya_color_codes length] in H; lia. }
+  cbn [opt_eqb andb] in Hd. apply N.eqb_neq in Hd. rewrite !app_nil_r.
+  destruct (ya_attr_codes_eq _ Hb) as (_ & _ & Hne). specialize (Hne Hd).
+  destruct (ya_attr_list (ya_attrs st)); [contradiction|discriminate].
+Qed.
+
+Lemma ya_render_plain st : ya_plain st ->
+  ya_render_bytes [120] st = ya_prefix st ++ [120] ++ (if ya_is_default st then [] else [27; 91; 48; 109]).
+Proof.
+  intros [Hq Hc]. unfold ya_render_bytes, ya_painted_bytes, ya_enabled, ya_suffix. rewrite Hc, Hq, !ya_has_zero.
+  cbn [andb negb orb]. reflexivity.
+Qed.
+
+Lemma vt_run_x s : ground_st s -> vt_run s [120] = (s, [EPrint 120]).
+Proof. intros G. cbn [vt_run]. rewrite (ground_print_x _ G). reflexivity. Qed.
+
+Lemma ya_render_events st : ya_style_ok st -> ya_plain st ->
+  spec_events (ya_render_bytes [120] st) =
+  if ya_is_default st then [EPrint 120]
+  else [rn_sgr (ya_single (ya_codes st)); EPrint 120; rn_sgr [[0]]].
+Proof.
+  intros Hok Hp. rewrite (ya_render_plain _ Hp). destruct Hp as [Hq Hc]. unfold spec_events.
+  destruct (ya_is_default st) eqn:Hd.
+  - unfold ya_prefix. rewrite Hd. reflexivity.
+  - rewrite (ya_prefix_csi _ Hd).
+    destruct (ya_codes_ok _ Hok) as [Hu8 Hlen].
+    destruct (ya_groups_ok (ya_codes st) (ya_default_codes _ Hok Hq Hd) Hu8 ltac:(lia)) as [Hcsi Hval].
+    destruct (rn_csi_roundtrip _ vt_init Hcsi ground_init) as (s1 & E1 & G1).
+    assert (Hr : rn_csi_ok [[[48]]] = true) by reflexivity.
+    destruct (rn_csi_roundtrip _ s1 Hr G1) as (s2 & E2 & _).
+    change [27; 91; 48; 109] with (rn_csi [[[48]]] 109).
+    rewrite vt_run_app, E1, (vt_run_app s1 [120]), (vt_run_x _ G1), E2. cbn [snd app]. rewrite Hval. reflexivity.
+Qed.
+
+(* THE rendering theorem at the level of yansi's own type: for every Style the Rust type can hold that has no quirk
+   and no condition, `yansi::enable(); "x".paint(st).to_string()` does not panic and a terminal shows the "x" in exactly
+   the rendition [ya_meaning st] *)
+Lemma ya_render_interp st : ya_style_ok st -> ya_plain st ->
+  ad_interp_x (ya_render_bytes [120] st) = Some (ya_meaning st).
+Proof.
+  intros Hok Hp. unfold ad_interp_x. rewrite (ya_render_events _ Hok Hp).
+  destruct (ya_is_default st) eqn:Hd.
+  - cbn. unfold ya_meaning. unfold ya_is_default in Hd.
+    destruct (ya_fg st); [discriminate|]. destruct (ya_bg st); [discriminate|]. cbn [opt_eqb andb] in Hd. apply N.eqb_eq in Hd.
+    rewrite Hd. reflexivity.
+  - rewrite <- (ya_sgr_meaning _ Hok (proj1 Hp)). reflexivity.
+Qed.
+
+Theorem yansi_render_is_meaning : forall o en st, ya_style_ok st -> ya_plain st ->
+  exists bytes, g_yansi_render o en st = Some bytes /\ ad_interp_x bytes = Some (ya_meaning st).
+Proof.
+  intros o en st Hok Hp. exists (ya_render_bytes [120] st). split.
+  - apply g_yansi_render_text_eq; [apply Hok|]. rewrite (proj1 Hp). apply ya_has_zero.
+  - now apply ya_render_interp.
+Qed.
